@@ -567,13 +567,20 @@ Qed.
 Lemma bindF_rel rho rho' p p' v v' : erel R rho rho' -> prel R p p' -> vrel R v v' ->
   Sim (erel R) (bindF ev bd rho p v) (fun m => bindF (eval m) (bind_pat m) rho' p' v').
 Proof.
-  intros Hrho Hp Hv. destruct Hp as [x| |e e' He|l l' Hl|l l' Hl|l l' Hl|l l' Hl].
+  intros Hrho Hp Hv. destruct Hp as [x| |e e' He|es es' Hes|l l' Hl|l l' Hl|l l' Hl|l l' Hl].
   - apply S_ok. repeat constructor. exact Hv.
   - apply S_ok. constructor.
   - unfold bindF; cbv zeta beta. apply S_bind with (Q := vrel R); [apply Hev; assumption|]. intros w w' Hw.
     apply S_bind with (Q := eq); [apply as_data_rel with (R := R); exact Hw|]. intros a a' <-.
     apply S_bind with (Q := eq); [apply as_data_rel with (R := R); exact Hv|]. intros b b' <-.
     destruct (veqb a b); [apply S_ok; constructor | apply S_err].
+  - (* (e1, e2, ..): the alternatives in order *)
+    unfold bindF; cbv zeta beta.
+    apply S_bind with (Q := eq); [apply as_data_rel with (R := R); exact Hv|]. intros b b' <-.
+    induction Hes as [|e e' es es' He Hes IH]; cbv beta iota; [apply S_err|].
+    apply S_bind with (Q := vrel R); [apply Hev; assumption|]. intros w w' Hw.
+    apply S_bind with (Q := eq); [apply as_data_rel with (R := R); exact Hw|]. intros a a' <-.
+    destruct (veqb a b); [apply S_ok; constructor | exact IH].
   - eapply S_ext; [intros m; symmetry; apply bindF_arr|]. rewrite bindF_arr.
     apply S_bind with (Q := eq); [apply as_data_rel with (R := R); exact Hv|]. intros d d' <-.
     destruct (dense_array d) as [xs|]; [|apply S_err].
@@ -734,7 +741,7 @@ Proof.
                  crel_parms_mid, crel_pairs_refl, crel_parms_refl.
     constructor. apply plug_crel.
   - destruct pc; cbn [pplug]; constructor;
-      auto using crel_refl, irel_refl, irel_list_mid, irel_attrs_mid, irel_entries_mid.
+      auto using crel_refl, irel_refl, crel_list_mid, irel_list_mid, irel_attrs_mid, irel_entries_mid.
   - destruct ic; cbn [iplug]; constructor; auto using prel_refl, crel_opt_refl. constructor. apply plug_crel.
 Qed.
 End Plug.
